@@ -132,7 +132,7 @@ func TestC02_SingleUse(t *testing.T) {
 		ID: "C02", Name: "single-use", Quick: 640, Thor: 10_000,
 		Gen: genRelCase("C02"),
 		Run: func(c RelCase) Outcome { return runRelayer(c, "C02") },
-		Rule: "histories of 6-40 blocks over: voted messages of the five kinds (honest and the C01 fault classes), replay of any earlier accepted vote in a freshly signed transaction, the same Votes under another message kind/payload, genuine votes over bodies that fail after the signature check (existing key, unknown withdrawal), failing non-voted messages, registrations, acceptances, two voted messages for one sequence in a block, add/remove requests and block times that trigger elections; reference: sequence += accepted voted txs, randao = SHA256(randao || signature) folded in order, accepted-flag; every rejected/failed transaction must leave the four module stores identical to the twin execution without it; non-trivial = history with an accepted vote followed by a reuse or a post-signature failure; evaluations count blocks",
+		Rule: "histories of 6-40 blocks over: voted messages of the five kinds (honest and the C01 fault classes), replay of any earlier accepted vote in a freshly signed transaction (verbatim or with its sequence and epoch fields rewritten to the current values), the same Votes under another message kind/payload, genuine votes over bodies that fail after the signature check (existing key, unknown withdrawal), failing non-voted messages, registrations, acceptances, two voted messages for one sequence in a block, add/remove requests and block times that trigger elections; reference: sequence += accepted voted txs, randao = SHA256(randao || signature) folded in order, accepted-flag; every rejected/failed transaction must leave the four module stores identical to the twin execution without it; non-trivial = history with an accepted vote followed by a reuse or a post-signature failure; evaluations count blocks",
 	})
 }
 
